@@ -59,7 +59,9 @@ RULE = ("random histories plus, every run: MAGNITUDE histories (every documented
         "non-singleton sorts: each copy equals its source, is the node a native build denotes, has target sorts, shares nothing) and "
         "CONTAINER histories (every Iterable-taking entry point with the same argument list as varargs, list, tuple, set, frozenset, dict, "
         "keys view, deque, generator, map, filter, iter, chain, reversed - empty, singleton, duplicates: one object or one exception class; "
-        "replayed in the model as the list form; results copied into a second environment); "
+        "replayed in the model as the list form; results copied into a second environment); ALIASING pass over every returned node of "
+        "every history (every accessor read, every returned dict/list/set edited in place, read again: unchanged, equal to the args() view, "
+        "fresh object per call, printers unchanged, table still maps the content to the node; the final tables are read after the edits); "
         "history = list of constructor calls on 1-3 fresh Environments (about 45 calls each); compared: every returned "
         "node_id / error and the complete final formulae table of every environment, model vs implementation; oracle: "
         "skey injectivity over ALL nodes of every table, blueprint read-backs, same request => same outcome, copies; "
@@ -332,6 +334,7 @@ class History(object):
         self.lazy = []            # indexes of environments created in the course of the history
         self.collected = 0        # released source environments that were really garbage-collected
         self.strict_err = False   # same request => same exception class too
+        self.alias_stats = {"nodes": 0, "reads": 0, "mutable_results": 0, "mutations": 0}
         self.model = True         # replayed in the Coq model (False: entry points outside the model, oracle only)
         self.released_n = 0
 
@@ -1143,6 +1146,67 @@ class History(object):
             if not E.released:
                 self.finish_env(E)
 
+    def alias_check(self, E, n):
+        """accessor results must not alias the node's state: read every accessor, edit every returned mutable container in
+        place, read again (must equal the first reading and the args()-derived view), require fresh objects from successive
+        calls, and a second holder of the same hash-consed node must see the original"""
+        import copy
+        warnings.simplefilter("ignore")
+        idx = len(self.reqs) - 1
+        acc = node_accessors(E, n)
+        before = read_all(acc)
+        self.alias_stats["nodes"] += 1
+        self.alias_stats["reads"] += 2 * len(acc)
+        spare = [c for c in E.pool if c.is_constant() and c.node_type() != op.ARRAY_VALUE][:3]
+        for name, th in acc:
+            try:
+                r1 = th()
+                r2 = th()
+            except Exception:   # noqa
+                continue
+            if not isinstance(r1, MUTABLE):
+                continue
+            self.alias_stats["mutable_results"] += 1
+            if r1 is r2:
+                self.complaints.append(("alias:shared-object:%s" % name.split("(")[0], "two calls of %s on node %d (%s) return the SAME %s object"
+                                        % (name, n.node_id(), op.op_to_str(n.node_type()), type(r1).__name__), idx))
+            saved = copy.copy(r1)
+            edits = mutate(r1, spare)
+            after = read_all(acc)
+            self.alias_stats["mutations"] += 1
+            bad = sorted(k for k in before if before[k] != after[k])
+            if bad:
+                self.complaints.append(("alias:mutation-visible:%s" % name.split("(")[0],
+                                        "after editing the %s returned by %s of node %d (%s) in place (%s), the accessors %s read %s instead of %s"
+                                        % (type(r1).__name__, name, n.node_id(), n.serialize() if len(str(before.get("serialize"))) < 200 else op.op_to_str(n.node_type()),
+                                           "; ".join(edits), bad[:4], [after[k] for k in bad[:2]], [before[k] for k in bad[:2]]), idx))
+                try:                                   # limit the damage to this report
+                    r1.clear()
+                    r1.update(saved) if isinstance(r1, (dict, set)) else r1.extend(saved)
+                except Exception:   # noqa
+                    pass
+            if self.py and bad:
+                self.py[-1] += "\nm = n%d_%d.%s(); %s   # then read the accessors of n%d_%d again" % (E.k, n.node_id(), name, "; ".join(edits), E.k, n.node_id())
+        # the args()-derived view of an array value
+        if n.node_type() == op.ARRAY_VALUE:
+            a = n.args()
+            want = dict(zip(a[1::2], a[2::2]))
+            got = n.array_value_assigned_values_map()
+            if set(map(id, got)) != set(map(id, want)) or any(got[k] is not want[k] for k in want):
+                self.complaints.append(("alias:accessor-vs-args:array_value_assigned_values_map",
+                                        "array_value_assigned_values_map() of node %d is not the map its args() spell" % n.node_id(), idx))
+            for k in want:
+                if n.array_value_get(k) is not want[k]:
+                    self.complaints.append(("alias:accessor-vs-args:array_value_get", "array_value_get of node %d disagrees with args()" % n.node_id(), idx))
+                    break
+        # a second holder of the same hash-consed node
+        try:
+            twin = E.m.formulae.get(n._content)
+            if twin is not n:
+                self.complaints.append(("alias:twin", "the table no longer maps the content of node %d to it" % n.node_id(), idx))
+        except Exception:   # noqa
+            pass
+
     def finish_env(self, E):
         """whole-table oracle: one object per structure over ALL nodes ever created"""
         if True:
@@ -1165,6 +1229,8 @@ class History(object):
                 for cch in a.args():
                     if cch.node_id() >= a.node_id():
                         self.complaints.append(("child-id", "child id not smaller than parent id", len(self.reqs) - 1))
+            for a in list(E.pool):
+                self.alias_check(E, a)
 
     # ------------------------------------------------------------------ Coq text
     @staticmethod
@@ -1273,6 +1339,122 @@ def diagnose(chk, h, tag):
     r = lib.parse_nat_list(out) if rc == 0 else None
     return r[0] if r else None
 
+
+
+# ----------------------------------------------------------------------------------------------
+# aliasing between accessor results and the node's state
+# ----------------------------------------------------------------------------------------------
+MUTABLE = (dict, list, set, bytearray)
+
+
+def plain(x):
+    """value of an accessor result with objects replaced by what identifies them"""
+    from pysmt.fnode import FNode
+    from pysmt.typing import PySMTType
+    if isinstance(x, FNode):
+        return ("node", x.node_id())
+    if isinstance(x, PySMTType):
+        return ("sort", tdesc(x))
+    if isinstance(x, dict):
+        return ("dict", tuple(sorted(((plain(k), plain(v)) for k, v in x.items()), key=repr)))
+    if isinstance(x, (list, tuple)):
+        return (type(x).__name__, tuple(plain(y) for y in x))
+    if isinstance(x, (set, frozenset)):
+        return ("set", tuple(sorted((plain(y) for y in x), key=repr)))
+    if isinstance(x, (int, str, bool, Fraction, float, type(None))):
+        return x
+    return ("obj", type(x).__name__, str(x))
+
+
+def node_accessors(E, n):
+    """(name, thunk) for every accessor applicable to node n: structural accessors of FNode, the sorts they return, the
+    analyses that return containers, the symbol table views of the manager, the printers"""
+    import io
+    from pysmt.smtlib.printers import SmtPrinter
+    nt = n.node_type()
+    acc = [("node_type", n.node_type), ("args", n.args), ("node_id", n.node_id), ("is_constant", n.is_constant), ("is_symbol", n.is_symbol),
+           ("get_type", lambda: E.env.stc.get_type(n)), ("free_variables", lambda: E.env.fvo.get_free_variables(n)),
+           ("atoms", lambda: E.env.ao.get_atoms(n)), ("types", lambda: E.env.typeso.get_types(n)), ("size", lambda: E.env.sizeo.get_size(n)),
+           ("serialize", lambda: E.env.serializer.serialize(n, threshold=12))]
+
+    def smt():
+        buf = io.StringIO()
+        SmtPrinter(buf).printer(n)
+        return buf.getvalue()
+    acc.append(("smtlib", smt))
+    if nt == op.SYMBOL:
+        acc += [("symbol_name", n.symbol_name), ("symbol_type", n.symbol_type), ("get_symbol", lambda: E.m.get_symbol(n.symbol_name())),
+                ("symbol_type.args", lambda: n.symbol_type().args)]
+        if n.symbol_type().is_function_type():
+            acc += [("symbol_type.param_types", lambda: n.symbol_type().param_types), ("symbol_type.return_type", lambda: n.symbol_type().return_type)]
+    if n.is_constant() and nt != op.ARRAY_VALUE:
+        acc += [("constant_value", n.constant_value), ("constant_type", n.constant_type)]
+    if nt == op.BV_CONSTANT:
+        acc += [("bv_unsigned_value", n.bv_unsigned_value), ("bv_signed_value", n.bv_signed_value), ("bv_bin_str", n.bv_bin_str)]
+    if n.is_bv_op() or nt == op.BV_CONSTANT:
+        acc.append(("bv_width", n.bv_width))
+    if nt == op.BV_EXTRACT:
+        acc += [("bv_extract_start", n.bv_extract_start), ("bv_extract_end", n.bv_extract_end)]
+    if nt in (op.BV_ROL, op.BV_ROR):
+        acc.append(("bv_rotation_step", n.bv_rotation_step))
+    if nt in (op.BV_ZEXT, op.BV_SEXT):
+        acc.append(("bv_extend_step", n.bv_extend_step))
+    if nt == op.FUNCTION:
+        acc.append(("function_name", n.function_name))
+    if nt in (op.FORALL, op.EXISTS):
+        acc.append(("quantifier_vars", n.quantifier_vars))
+    if nt == op.ARRAY_VALUE:
+        a = n.args()
+        keys = list(a[1::2])
+        acc += [("array_value_index_type", n.array_value_index_type), ("array_value_default", n.array_value_default),
+                ("array_value_assigned_values_map", n.array_value_assigned_values_map)]
+        for kk in keys:
+            acc.append(("array_value_get(n%d)" % kk.node_id(), lambda kk=kk: n.array_value_get(kk)))
+        others = [c for c in E.pool if c.is_constant() and c.node_type() != op.ARRAY_VALUE and all(c is not kk for kk in keys)][:2]
+        for c in others:
+            acc.append(("array_value_get(n%d)" % c.node_id(), lambda c=c: n.array_value_get(c)))
+    return acc
+
+
+def read_all(acc):
+    out = {}
+    for name, th in acc:
+        try:
+            out[name] = plain(th())
+        except Exception as ex:   # noqa
+            out[name] = ("raises", type(ex).__name__)
+    return out
+
+
+def mutate(r, spare):
+    """edit a returned container in place; returns a description of the edits"""
+    done = []
+    try:
+        if isinstance(r, dict):
+            if r:
+                k0 = next(iter(r))
+                del r[k0]
+                done.append("del m[first key]")
+            if spare:
+                r[spare[0]] = spare[-1]
+                done.append("m[n%d] = n%d" % (spare[0].node_id(), spare[-1].node_id()))
+        elif isinstance(r, list):
+            r.append(spare[0] if spare else None)
+            done.append("append")
+            del r[0]
+            done.append("del l[0]")
+        elif isinstance(r, set):
+            r.clear()
+            done.append("clear")
+            if spare:
+                r.add(spare[0])
+                done.append("add")
+        elif isinstance(r, bytearray):
+            r.extend(b"x")
+            done.append("extend")
+    except Exception as ex:   # noqa
+        done.append("(edit raised %s)" % type(ex).__name__)
+    return done
 
 
 WIDTHS = [1, 2, 7, 8, 9, 63, 64, 65, 255, 256, 257, 258, 511, 1000, 4096]
@@ -1800,6 +1982,7 @@ def run(tier, only=None):
         chk.note("model/implementation disagree in history %s at step %s: %s" % (tags[i], at, disagreements[-1]["call"]))
     chk.cov["correspondence"] = {"histories": len(hists), "calls": sum(len(h.reqs) for h in hists), "calls_raising": nerr,
                                  "environments": sum(len(h.envs) for h in hists), "nodes_compared": sum((E.nnodes if E.released else len(E.m.formulae)) for h in hists for E in h.envs),
+                                 "aliasing": {k: sum(h.alias_stats[k] for h in hists) for k in ("nodes", "reads", "mutable_results", "mutations")},
                                  "short_lived_environments": sum(h.released_n for h in hists), "of_which_garbage_collected": sum(h.collected for h in hists),
                                  "by_constructor": hist_kinds, "disagreements": len(bad), "case_file_errors": len(errs), "examples": disagreements}
     chk.sample({"kind": "history", "script_head": hists[-1].script(12)})
